@@ -145,6 +145,19 @@ pub fn parse_pretty(out: &str) -> Result<(Vec<PrettyItem>, Option<usize>), Strin
                 Some(_) => return Err(format!("marker left of the excerpt: {caret:?}")),
                 None => marks.chars().count(),
             };
+            // in front of the marker a tab stands exactly where the line above has one, so that
+            // marker and text share their screen column whatever the tab width
+            {
+                let above: Vec<char> = code.chars().collect();
+                let below: Vec<char> = caret.chars().collect();
+                for k in 0..off {
+                    let a = above.get(text_col + k) == Some(&'\t');
+                    let b = below.get(text_col + k) == Some(&'\t');
+                    if a != b {
+                        return Err(format!("the padding in front of the marker does not repeat the tabs of the line above (screen columns differ): {code:?} / {caret:?}"));
+                    }
+                }
+            }
             excerpt = Some((n, text.to_string(), off, len));
             i += 3;
         }
